@@ -845,6 +845,9 @@ def _worker_reflect(args):
     return out
 
 
+POOL_TIMEOUT = [900]
+
+
 def _pool(fn, jobs, procs):
     """fork pool; a worker that dies is reported (BrokenProcessPool) instead of hanging the check"""
     import multiprocessing as mp
@@ -852,7 +855,7 @@ def _pool(fn, jobs, procs):
     ctx = mp.get_context("fork")
     ex = ProcessPoolExecutor(max_workers=min(procs, max(1, len(jobs))), mp_context=ctx)
     try:
-        return list(ex.map(fn, jobs, timeout=1500))
+        return list(ex.map(fn, jobs, timeout=POOL_TIMEOUT[0]))
     finally:
         ex.shutdown(wait=False, cancel_futures=True)
 
@@ -1093,10 +1096,17 @@ def main(R):
         # the pools fork: nothing that starts threads (shared memory, memmap executors) runs in this process before them
         import time
         t0 = time.time()
-        stream_reflection(R, RF, 6 if R.quick else 40, fixtures)
+        POOL_TIMEOUT[0] = 900 if R.quick else 1500
+        try:
+            stream_reflection(R, RF, 6 if R.quick else 25, fixtures)
+        except TimeoutError:
+            R.broken.append("reflection stream: worker pool timed out (machine overloaded?)")
         t1 = time.time()
         if ok:
-            stream_histories(R, 320 if R.quick else 30000, 28 if R.quick else 50)
+            try:
+                stream_histories(R, 320 if R.quick else 8000, 28 if R.quick else 45)
+            except TimeoutError:
+                R.broken.append("history stream: worker pool timed out (machine overloaded?)")
         t2 = time.time()
         stream_writes(R, RF, t)
         R.extra["stream_wall_s"] = {"reflection": round(t1 - t0, 1), "histories": round(t2 - t1, 1), "writes": round(time.time() - t2, 1)}
